@@ -26,6 +26,10 @@ EXHAUSTIVE = True
 
 
 def writers_of(K, field):
+    return fn.effective_writers(K, field)
+
+
+def _writers_of_direct(K, field):
     out = set()
     for name, f in K.ns.items():
         node = getattr(fn.func_of(f), "node", None)
